@@ -918,6 +918,34 @@ func (c *Ctx) c08Panics(recovering map[*ssa.Function]bool) {
 						why, ok2 = "shared error variable; every origin classified ("+strings.Join(origins, ", ")+")", true
 					}
 				}
+				if !ok2 && core.PkgOf(top) == "internal/ledger" {
+					// the ledger's own records: marshalling / decoding an account record or a journal record means the same
+					// thing wherever the code sits inside the ledger package (extract-method refactorings move it)
+					for _, o := range core.Origins(p.X) {
+						cc, _ := core.CallOf(o)
+						if cc == nil || core.CalleeObj(cc) == nil {
+							continue
+						}
+						rt := ""
+						if rv := core.Receiver(cc); rv != nil {
+							rt = rv.Type().String()
+						}
+						for _, a := range cc.Common().Args {
+							rt += " " + a.Type().String()
+						}
+						isRecord := strings.Contains(rt, "InnerAccount") || strings.Contains(rt, "blockJournal") || strings.Contains(rt, "BlockJournal")
+						switch core.CalleeObj(cc).Name() {
+						case "Marshal":
+							if isRecord {
+								why, ok2 = "internal invariant: marshalling an account / journal record of the ledger", true
+							}
+						case "Unmarshal":
+							if isRecord {
+								why, ok2 = "storage corruption: a record written by Commit does not decode", true
+							}
+						}
+					}
+				}
 				if !ok2 {
 					// errors of these repository functions are classified wherever the panic sits
 					// (moving the code into a helper does not change what the panic means)
